@@ -34,17 +34,90 @@ def asList {α : Type} (f : Json → Except String α) (j : Json) : Except Strin
 def getOptNatList (j : Json) (k : String) : Except String (List (Option Nat)) := do
   asList asOptNat (← j.getObjVal? k)
 
+def asOptInt (j : Json) : Except String (Option Int) :=
+  match j with
+  | Json.null => pure none
+  | v => some <$> asInt v
+
+def getOI (j : Json) (k : String) : Except String (Option Int) := do
+  match j.getObjVal? k with
+  | .error _ => pure none
+  | .ok v => asOptInt v
+
+def getNatList (j : Json) (k : String) : Except String (List Nat) := do
+  asList asNat (← j.getObjVal? k)
+
+def asKV (j : Json) : Except String (String × Nat) := do
+  let a ← j.getArr?
+  match a.toList with
+  | [k, v] => return (← asStr k, ← asNat v)
+  | _ => throw "expected [key, value]"
+
+def asOrder (j : Json) : Except String (Nat × List Nat) := do
+  let a ← j.getArr?
+  match a.toList with
+  | [g, l] => return (← asNat g, ← asList asNat l)
+  | _ => throw "expected [graph, [nodes]]"
+
+def parseIOMut (j : Json) : Except String IOMut := do
+  let m ← getStr j "m"
+  match m with
+  | "append" => return .append (← getNat j "v")
+  | "extend" => return .extend (← getNatList j "vs")
+  | "insert" => return .insert (← getInt j "i") (← getNat j "v")
+  | "pop" => return .pop (← getInt j "i")
+  | "remove" => return .remove (← getNat j "v")
+  | "clear" => return .clear
+  | "setItem" => return .setItem (← getInt j "i") (← getNat j "v")
+  | "setSlice" => return .setSlice (← getOI j "start") (← getOI j "stop") (← getOI j "step") (← getNatList j "vs")
+  | "delItem" => return .delItem (← getInt j "i")
+  | "delSlice" => return .delSlice (← getOI j "start") (← getOI j "stop") (← getOI j "step")
+  | "reverse" => return .reverse
+  | "iadd" => return .iadd (← getNatList j "vs")
+  | "imul" => return .imul (← getInt j "k")
+  | _ => throw s!"unknown io mutator {m}"
+
+def parseInitMut (j : Json) : Except String InitMut := do
+  let m ← getStr j "m"
+  match m with
+  | "setItem" => return .setItem (← getStr j "key") (← getNat j "v")
+  | "delItem" => return .delItem (← getStr j "key")
+  | "add" => return .add (← getNat j "v")
+  | "pop" => return .pop (← getStr j "key")
+  | "popitem" => return .popitem
+  | "clear" => return .clear
+  | "update" => return .update (← asList asKV (← j.getObjVal? "kvs"))
+  | "setdefault" => return .setdefault (← getStr j "key") (← getNat j "v")
+  | "register" => return .register (← getNat j "v")
+  | _ => throw s!"unknown initializer mutator {m}"
+
 def parseOp (j : Json) : Except String Op := do
   let o ← getStr j "op"
   match o with
   | "newValue" => return .newValue (← getOpt j "name" asStr)
+  | "setConst" => return .setConst (← getNat j "v")
   | "newNode" =>
     return .newNode (← getStr j "opType") (← getOpt j "name" asStr) (← getOptNatList j "inputs")
-      (← getOpt j "numOutputs" asInt) (← getOpt j "outputs" (asList asNat))
+      (← getOpt j "numOutputs" asInt) (← getOpt j "outputs" (asList asNat)) (← getOpt j "graph" asNat)
+  | "newGraph" =>
+    return .newGraph (← getNatList j "inputs") (← getNatList j "outputs") (← getNatList j "nodes")
+      (← getNatList j "inits")
   | "replaceInput" => return .replaceInput (← getNat j "n") (← getInt j "idx") (← getOpt j "v" asNat)
   | "resizeInputs" => return .resizeInputs (← getNat j "n") (← getInt j "k")
   | "resizeOutputs" => return .resizeOutputs (← getNat j "n") (← getInt j "k")
-  | "rauw" => return .rauw (← getNat j "v") (← getNat j "r")
+  | "rauw" => return .rauw (← getNat j "v") (← getNat j "r") (← getBool j "rgo")
+  | "io" =>
+    let k ← getStr j "kind"
+    return .io (← getNat j "g") (if k == "inp" then .inp else .out) (← parseIOMut j)
+  | "init" => return .init (← getNat j "g") (← parseInitMut j)
+  | "setName" => return .setName (← getNat j "v") (← getOpt j "s" asStr)
+  | "append" => return .append (← getNat j "g") (← getNat j "n")
+  | "extend" => return .extend (← getNat j "g") (← getNatList j "ns")
+  | "insertAfter" => return .insertAfter (← getNat j "g") (← getNat j "a") (← getNatList j "ns")
+  | "insertBefore" => return .insertBefore (← getNat j "g") (← getNat j "a") (← getNatList j "ns")
+  | "remove" => return .remove (← getNat j "g") (← getNatList j "ns") (← getBool j "safe")
+  | "sortOk" => return .sortOk (← asList asOrder (← j.getObjVal? "orders"))
+  | "sortCycle" => return .sortCycle
   | _ => throw s!"unknown kernel op {o}"
 
 def pairsJ (xs : List (Nat × Nat)) : Json :=
